@@ -11,6 +11,9 @@ import PyTealV.Cmd.C12
 import PyTealV.Cmd.C15
 import PyTealV.Cmd.C02Spill
 import PyTealV.Cmd.C16
+import PyTealV.Cmd.C04
+import PyTealV.Cmd.C08
+import PyTealV.Cmd.C14
 namespace PyTealV.Cmd
 
 def extraCommands : List (String × (List String → String)) := [
@@ -37,7 +40,12 @@ def extraCommands : List (String × (List String → String)) := [
   ("c02-gsearch", C02Spill.gsearch),
   ("c16-ops", C16.ops),
   ("c16-run", C16.runCmd),
-  ("c16-spec", C16.specCmd)
+  ("c16-spec", C16.specCmd),
+  ("c04-wf", C04.wfCmd),
+  ("c04-label", C04.labelCmd),
+  ("c08-dispatch", C08.dispatchCmd),
+  ("c14-model", C14.model), ("c14-spec", C14.spec), ("c14-submitted", C14.submittedCmd),
+  ("c14-view", C14.view), ("c14-pack", C14.pack), ("c14-fields", C14.fields)
 ]
 
 def dispatch (cmd : String) (args : List String) : Option String :=
